@@ -23,29 +23,34 @@ SysAdmit(ev) == NearLimit(ev.x) \/ NearLimit(ev.y) \/ Abs(ev.q) > 33000
 RoundingOps == {"add", "sub", "mul", "quo", "abs", "neg", "round", "rem", "reduce", "quantize",
                 "sqrt", "cbrt", "exp", "ln", "log10", "pow"}
 
+Composite == {"sqrt", "cbrt", "exp", "ln", "log10", "pow"}
 \* ---------------- family "a": one Context call ----------------
 Verdict_a(ev) ==
   LET got == ev.res
       w == Want(ev.op, ev.ctx, ev.x, ev.y, ev.q)
       trapped == And(ev.fl, ev.ctx.t) # 0
+      \* a composite function that returns an error leaves an unspecified destination (C03)
+      delivered == ev.err = "" \/ ev.op \notin Composite
   IN IF ev.panic # "" THEN {"panic"}
      ELSE IF SysFlag(ev) THEN (IF SysAdmit(ev) THEN {} ELSE {"sys"})
      ELSE Names(<<
        <<"wf",    got.f \in {FIN, INF, SNAN, QNAN} /\ got.cs >= 0 /\ IsNat(got.c)>>,
-       <<"err",   (ev.err # "") = trapped \/ w.k = "skip">>,
-       <<"val",   ValueOK(w, got)>>,
+       <<"err",   (ev.err # "") = trapped \/ w.k = "skip" \/ ev.op \in Composite>>,
+       <<"val",   delivered => ValueOK(w, got)>>,
        <<"exp",   (w.k = "fin" /\ got.f = FIN) =>
                      /\ (ev.op = "quantize" => got.e = ev.q)
-                     /\ (ev.op \in {"quoint", "tointx", "tointv", "ceil", "floor"} => (got.e = 0 \/ (got.e > 0 /\ ev.x.e > 0 /\ ev.op \in {"tointx", "tointv"})))
+                     /\ (ev.op = "quoint" => got.e = 0)
+                     /\ (ev.op \in {"tointx", "tointv"} => (got.e = 0 \/ (got.e > 0 /\ ev.x.e > 0)))
                      /\ (ev.op = "reduce" => (IF IsZero(got.c) THEN got.e = 0 ELSE LastDigit(got.c) # 0))>>,
        <<"flags", FlagsOK(ev.op, w, got, ev.fl)>>,
+       <<"flagimp", FlagImpOK(got, ev.fl)>>,
        <<"rnd",   (w.k = "fin" /\ ev.op \in {"quantize", "tointx"} /\ ~IsZero(ev.x.c)) =>
                      (Bit(ev.fl, F_ROUNDED) = (ev.x.e < ev.q))>>,
        <<"nbits", ev.fl \in 0..4095>>,
-       <<"fits",  (ev.op \in RoundingOps \/ ev.op = "quoint") => Fits(ev.ctx, got)>>,
+       <<"fits",  (delivered /\ (ev.op \in RoundingOps \/ ev.op = "quoint")) => Fits(ev.ctx, got)>>,
        <<"cnt",   (ev.op = "reduce" /\ w.k = "fin" /\ got.f = FIN) =>
                      (IF IsZero(ev.x.c) THEN ev.cnt = 0
-                      ELSE (NumDigits(ev.x.c) <= ev.ctx.p \/ ev.ctx.p = 0) => ev.cnt = TrailingZeros(ev.x.c))>>,
+                      ELSE ((NumDigits(ev.x.c) <= ev.ctx.p /\ ev.x.e >= Etiny(ev.ctx)) \/ ev.ctx.p = 0) => ev.cnt = TrailingZeros(ev.x.c))>>,
        <<"frame", /\ (ev.al \notin {"dx", "dxy"} => SameRepr(ev.xa, ev.x))
                   /\ (ev.al \notin {"dy", "dxy", "xy"} => SameRepr(ev.ya, ev.y))
                   /\ (ev.al = "xy" => SameRepr(ev.ya, ev.x))>> >>)
